@@ -1,6 +1,7 @@
 (* C09 - decoding concatenated encodings equals decoding them one after another. *)
 From Coq Require Import List ZArith Bool.
-From Pico Require Import Base.Res Base.Mach Wire.Wire Schema.Types Schema.Scalar Ref.Ref Dec.Dec Dec.ReaderProofs.
+From Pico Require Import Base.Res Base.Mach Wire.Wire Schema.Types Schema.Scalar Schema.Gen Schema.Interp Ref.Ref Dec.Dec Dec.ReaderProofs
+  Dec.SafetyProofs Dec.TokenApp Schema.TDec Schema.Concat.
 Import ListNotations.
 Open Scope Z_scope.
 
@@ -20,10 +21,23 @@ Theorem C09_overwrite : forall k field v v0 v1 rest e, scalar_ok k v = true ->
   snd (dec_single k field {| pf := field; pw := wire_of k; buf := enc_payload k v ++ rest; err := e |} v1).
 Proof. intros. rewrite !dec_single_value by assumption. reflexivity. Qed.
 
-(* PARTIAL. pico_unmarshal (a ++ b) m0 = pico_unmarshal b (pico_unmarshal a m0) for whole messages
-   (repeated append, sub-message merge, map overwrite, last oneof member) is decided per run on
-   histories of 1-4 calls: implementation sequential = implementation one-shot = model (both ways)
-   = ref_decode = protobuf-go on the concatenation. *)
+(* the tokens of a concatenation are the tokens of the pieces (groups of any depth, non-minimal varints, ... included) *)
+Theorem C09_tokens : forall a b ta, bytes_ok a -> tokens a = Some ta ->
+  tokens (a ++ b) = match tokens b with Some tb => Some (ta ++ tb) | None => None end.
+Proof. exact tokens_app. Qed.
+(* the reference decoder merges: decoding a ++ b = decoding b into the result of decoding a *)
+Theorem C09_reference : forall g s idx a b x y, bytes_ok a -> ref_decode g s idx a x = Some y ->
+  ref_decode g s idx (a ++ b) x = ref_decode g s idx b y.
+Proof. exact ref_decode_app. Qed.
+(* C09 for Unmarshal of generated code, every schema of the feature set, every pair of byte strings (valid
+   encodings of anything, in particular picobuf's own): if the pieces decode one after another without error into
+   t1 and then t2, then the concatenation decodes in one call to exactly t2 - repeated fields appended across the
+   boundary, sub-messages merged, maps overwritten per key, the last oneof member winning, nothing reset. *)
+Theorem C09_unmarshal_concat : forall s progs idx a b t0 t1 t2,
+  gen_all s = GOk progs -> tdec_applies s = true -> bytes_ok a -> bytes_ok b ->
+  pico_unmarshal progs idx a t0 = (None, t1) -> pico_unmarshal progs idx b t1 = (None, t2) ->
+  pico_unmarshal progs idx (a ++ b) t0 = (None, t2).
+Proof. exact unmarshal_concat. Qed.
 
 Example C09_nonvacuous : next_field 1 {| pf := 1; pw := 0; buf := [5; 16; 7]; err := None |} = {| pf := 2; pw := 0; buf := [7]; err := None |}.
 Proof. vm_compute. reflexivity. Qed.
@@ -31,3 +45,6 @@ Proof. vm_compute. reflexivity. Qed.
 Print Assumptions C09_no_reset.
 Print Assumptions C09_cursor.
 Print Assumptions C09_overwrite.
+Print Assumptions C09_tokens.
+Print Assumptions C09_reference.
+Print Assumptions C09_unmarshal_concat.
